@@ -87,3 +87,12 @@ Theorem C11_native_fp_ctxs : forall es nbits rm, In (es, nbits, rm) fp_ctxs ->
     In (t, af_ieee p emin me) ladder /\ float_params t = Some (p, emin, me).
 Proof. exact native_fp_ctxs. Qed.
 Print Assumptions C11_native_fp_ctxs.
+
+(* the counter of a constant-bound `range` loop: every value it takes, the overshoot past `stop` included, is a
+   value of the counter type chosen by emitter._range_counter_scalar -- `i += step` cannot wrap *)
+Theorem C11_counter_no_wrap : forall start stop step t k, step <> 0 ->
+  range_counter_scalar start stop step = SLadder t ->
+  0 <= k <= range_len start stop step ->
+  machine_repr t (z2fl (start + k * step)).
+Proof. exact counter_no_wrap. Qed.
+Print Assumptions C11_counter_no_wrap.
